@@ -24,6 +24,46 @@ pub struct PairCfg {
     pub amp: Option<u64>,
 }
 
+/// How the native funds attached to a message relate to the amounts the message declares:
+/// 0 exactly, 1 one unit short on the first coin, 2 half of every coin, 3 no funds at all,
+/// 4 one unit too many on the first coin, 5 an extra coin of an unrelated denom on top.
+pub fn distort_funds(mode: u8, mut funds: Vec<Coin>) -> Vec<Coin> {
+    match mode {
+        1 => {
+            if let Some(c) = funds.first_mut() {
+                c.amount = c.amount.saturating_sub(cosmwasm_std::Uint128::one());
+            }
+            funds.retain(|c| !c.amount.is_zero());
+        }
+        2 => {
+            for c in funds.iter_mut() {
+                c.amount = cosmwasm_std::Uint128::new(c.amount.u128() / 2);
+            }
+            funds.retain(|c| !c.amount.is_zero());
+        }
+        3 => funds.clear(),
+        4 => {
+            if let Some(c) = funds.first_mut() {
+                c.amount += cosmwasm_std::Uint128::one();
+            }
+        }
+        5 => {
+            funds.push(coin(1, "uccc"));
+            funds.sort_by(|a, b| a.denom.cmp(&b.denom));
+            funds.dedup_by(|a, b| {
+                if a.denom == b.denom {
+                    b.amount += a.amount;
+                    true
+                } else {
+                    false
+                }
+            });
+        }
+        _ => {}
+    }
+    funds
+}
+
 pub struct PairWorld {
     pub w: World,
     pub pair: Addr,
@@ -34,6 +74,8 @@ pub struct PairWorld {
     /// when set, ProvideLiquidity messages list the two assets in the opposite order to the pool's
     /// own asset order (amounts always stay attached to their asset)
     pub reversed_msgs: bool,
+    /// see [`distort_funds`]; applies to the next ProvideLiquidity / native Swap messages
+    pub funds_mode: u8,
 }
 
 #[derive(Clone, Debug)]
@@ -52,6 +94,8 @@ impl PairWorld {
     pub fn build(cfg: &PairCfg) -> Result<PairWorld, String> {
         let mut w = World::new_with_fund(&USERS, &["uaaa", "ubbb", "uccc"], USER_FUND);
         w.setup_pool_network();
+        w.add_account("collector-two");
+        w.add_account("collector-three");
         let mut infos = vec![];
         for i in 0..2 {
             if cfg.cw20[i] {
@@ -84,6 +128,7 @@ impl PairWorld {
             decimals: info.asset_decimals,
             collector,
             reversed_msgs: false,
+            funds_mode: 0,
         })
     }
 
@@ -178,6 +223,7 @@ impl PairWorld {
             }
         }
         funds.sort_by(|a, b| a.denom.cmp(&b.denom));
+        let funds = distort_funds(self.funds_mode, funds);
         let (i0, i1) = if self.reversed_msgs { (1, 0) } else { (0, 1) };
         let msg = pair::ExecuteMsg::ProvideLiquidity {
             assets: [
@@ -210,6 +256,33 @@ impl PairWorld {
         self.w.exec(user, &pair, &pair::ExecuteMsg::WithdrawLiquidity {}, &funds)
     }
 
+    /// A cw20 Receive hook that does not come from where it should: `swap_hook` selects the Swap
+    /// hook (legitimate only from a pool asset's cw20) or the WithdrawLiquidity hook (legitimate
+    /// only from the LP token). via 0: `Receive{..}` sent directly by the user; via 1: `Send` of a
+    /// pool asset's cw20 (first cw20 asset; falls back to via 0 without one); via 2: `Send` of the
+    /// LP token.
+    pub fn forged_hook(&mut self, user: &Addr, via: u8, swap_hook: bool, amount: u128) -> ExecResult {
+        let pair = self.pair.clone();
+        let hook = if swap_hook {
+            cosmwasm_std::to_json_binary(&pair::Cw20HookMsg::Swap { belief_price: None, max_spread: Some(Decimal::percent(50)), to: None }).unwrap()
+        } else {
+            cosmwasm_std::to_json_binary(&pair::Cw20HookMsg::WithdrawLiquidity {}).unwrap()
+        };
+        let asset_cw20 = self.infos.iter().find_map(|i| match i {
+            AssetInfo::Token { contract_addr } => Some(Addr::unchecked(contract_addr)),
+            _ => None,
+        });
+        let token = match (via, asset_cw20) {
+            (1, Some(t)) => Some(t),
+            (2, _) => Some(self.lp.clone()),
+            _ => None,
+        };
+        match token {
+            Some(t) => self.w.exec(user, &t, &cw20::Cw20ExecuteMsg::Send { contract: pair.to_string(), amount: Uint128::new(amount), msg: hook }, &[]),
+            None => self.w.exec(user, &pair, &pair::ExecuteMsg::Receive(cw20::Cw20ReceiveMsg { sender: user.to_string(), amount: Uint128::new(amount), msg: hook }), &[]),
+        }
+    }
+
     pub fn withdraw(&mut self, user: &Addr, shares: u128) -> ExecResult {
         let lp = self.lp.clone();
         let pair = self.pair.clone();
@@ -236,6 +309,7 @@ impl PairWorld {
                     to: to.map(|a| a.to_string()),
                 };
                 let funds = if amount > 0 { vec![coin(amount, denom)] } else { vec![] };
+                let funds = distort_funds(self.funds_mode, funds);
                 self.w.exec(user, &pair, &msg, &funds)
             }
             AssetInfo::Token { contract_addr } => {
@@ -330,6 +404,28 @@ impl PairWorld {
         )
     }
 
+    /// Re-points the pair's fee collector (through the factory); on success `self.collector` follows.
+    pub fn set_collector(&mut self, addr: &Addr) -> ExecResult {
+        let owner = self.w.owner.clone();
+        let factory = self.w.factory.clone().unwrap();
+        let r = self.w.exec(
+            &owner,
+            &factory,
+            &white_whale_std::pool_network::factory::ExecuteMsg::UpdatePairConfig {
+                pair_addr: self.pair.to_string(),
+                owner: None,
+                fee_collector_addr: Some(addr.to_string()),
+                pool_fees: None,
+                feature_toggle: None,
+            },
+            &[],
+        );
+        if r.is_ok() {
+            self.collector = addr.clone();
+        }
+        r
+    }
+
     pub fn config(&self) -> Result<pair::ConfigResponse, String> {
         self.w.query(&self.pair, &pair::QueryMsg::Config {})
     }
@@ -396,12 +492,16 @@ pub struct TrioWorld {
     pub collector: Addr,
     /// order in which ProvideLiquidity messages list the three assets (a permutation of 0,1,2)
     pub msg_order: [usize; 3],
+    /// see [`distort_funds`]
+    pub funds_mode: u8,
 }
 
 impl TrioWorld {
     pub fn build(cfg: &TrioCfg) -> Result<TrioWorld, String> {
         let mut w = World::new_with_fund(&USERS, &["uaaa", "ubbb", "uccc"], USER_FUND);
         w.setup_pool_network();
+        w.add_account("collector-two");
+        w.add_account("collector-three");
         let mut infos = vec![];
         for i in 0..3 {
             if cfg.cw20[i] {
@@ -433,6 +533,7 @@ impl TrioWorld {
             decimals: info.asset_decimals,
             collector,
             msg_order: [0, 1, 2],
+            funds_mode: 0,
         })
     }
 
@@ -518,6 +619,7 @@ impl TrioWorld {
             }
         }
         funds.sort_by(|a, b| a.denom.cmp(&b.denom));
+        let funds = distort_funds(self.funds_mode, funds);
         let o = self.msg_order;
         let msg = trio::ExecuteMsg::ProvideLiquidity {
             assets: [
@@ -540,6 +642,29 @@ impl TrioWorld {
     ) -> ExecResult {
         self.grant(user, amounts);
         self.provide_exec(user, amounts, slippage, receiver)
+    }
+
+    /// see PairWorld::forged_hook; the Swap hook asks for the next asset
+    pub fn forged_hook(&mut self, user: &Addr, via: u8, swap_hook: bool, amount: u128) -> ExecResult {
+        let trio = self.trio.clone();
+        let hook = if swap_hook {
+            cosmwasm_std::to_json_binary(&trio::Cw20HookMsg::Swap { ask_asset: self.infos[1].clone(), belief_price: None, max_spread: Some(Decimal::percent(50)), to: None }).unwrap()
+        } else {
+            cosmwasm_std::to_json_binary(&trio::Cw20HookMsg::WithdrawLiquidity {}).unwrap()
+        };
+        let asset_cw20 = self.infos.iter().find_map(|i| match i {
+            AssetInfo::Token { contract_addr } => Some(Addr::unchecked(contract_addr)),
+            _ => None,
+        });
+        let token = match (via, asset_cw20) {
+            (1, Some(t)) => Some(t),
+            (2, _) => Some(self.lp.clone()),
+            _ => None,
+        };
+        match token {
+            Some(t) => self.w.exec(user, &t, &cw20::Cw20ExecuteMsg::Send { contract: trio.to_string(), amount: Uint128::new(amount), msg: hook }, &[]),
+            None => self.w.exec(user, &trio, &trio::ExecuteMsg::Receive(cw20::Cw20ReceiveMsg { sender: user.to_string(), amount: Uint128::new(amount), msg: hook }), &[]),
+        }
     }
 
     /// The direct `WithdrawLiquidity {}` message with an arbitrary native coin attached (see PairWorld).
@@ -577,6 +702,7 @@ impl TrioWorld {
                     to: to.map(|a| a.to_string()),
                 };
                 let funds = if amount > 0 { vec![coin(amount, denom)] } else { vec![] };
+                let funds = distort_funds(self.funds_mode, funds);
                 self.w.exec(user, &trio, &msg, &funds)
             }
             AssetInfo::Token { contract_addr } => {
@@ -638,6 +764,29 @@ impl TrioWorld {
             },
             &[],
         )
+    }
+
+    /// Re-points the pool's fee collector (through the factory); on success `self.collector` follows.
+    pub fn set_collector(&mut self, addr: &Addr) -> ExecResult {
+        let owner = self.w.owner.clone();
+        let factory = self.w.factory.clone().unwrap();
+        let r = self.w.exec(
+            &owner,
+            &factory,
+            &white_whale_std::pool_network::factory::ExecuteMsg::UpdateTrioConfig {
+                trio_addr: self.trio.to_string(),
+                owner: None,
+                fee_collector_addr: Some(addr.to_string()),
+                pool_fees: None,
+                feature_toggle: None,
+                amp_factor: None,
+            },
+            &[],
+        );
+        if r.is_ok() {
+            self.collector = addr.clone();
+        }
+        r
     }
 
     pub fn config(&self) -> Result<trio::ConfigResponse, String> {
